@@ -444,6 +444,44 @@ func runC20(r *ev.Run) {
 				r.Count("i8-components-in-range", 1)
 			}
 		}
+		// the persisted-range path: a fresh quantiser given the same absMax through SetAbsMax (documented
+		// "for deserialization"), and a trained one re-ranged through SetAbsMax, must behave like a
+		// quantiser trained to that range.
+		if tq, ok := iq.(*comet.Int8Quantizer); ok {
+			am := tq.GetAbsMax()
+			if math.Abs(float64(am)-absMax) > 0 {
+				fail("quant.i8.absmax", fmt.Sprintf("GetAbsMax=%g, training data has absMax %g", am, absMax))
+			}
+			fresh := &comet.Int8Quantizer{}
+			fresh.SetAbsMax(am)
+			other := &comet.Int8Quantizer{}
+			other.Train([][]float32{{float32(absMax * (0.1 + 5*rng.Float64()))}})
+			other.SetAbsMax(am)
+			for name, q2 := range map[string]*comet.Int8Quantizer{"fresh+SetAbsMax": fresh, "trained+SetAbsMax": other} {
+				if !q2.IsTrained() {
+					fail("quant.i8.setabsmax-not-trained", name+": not trained after SetAbsMax(>0)")
+					continue
+				}
+				st, err := q2.Quantize(w)
+				if err != nil {
+					fail("quant.i8.error", name+": "+err.Error())
+					continue
+				}
+				back, err := q2.Dequantize(st)
+				if err != nil || len(back) != dim {
+					fail("quant.i8.length", name+": changed the length or failed")
+					continue
+				}
+				for j := range w {
+					bound := absMax/254 + 8*eps32*absMax
+					if e := math.Abs(float64(back[j]) - float64(w[j])); e > bound {
+						fail("quant.i8.precision-after-setabsmax", fmt.Sprintf("%s: component %d: %g -> %g (err %g > absMax/254=%g)", name, j, w[j], back[j], e, absMax/254))
+						break
+					}
+				}
+				r.Count("i8-setabsmax-roundtrips", 1)
+			}
+		}
 		nz := false
 		for _, x := range v0 {
 			if x != 0 {
